@@ -227,6 +227,18 @@ def vcf_worlds(tier):
                                 if not nopriors and depth in (1, 3) and nerr < 2 and (T or hom in (None, 0)):
                                     # regularised priors; the prior VCF is judged by the same rules
                                     yield world, dict(gt_qual_threshold=thr, constant=0.2 if thr != 3 else 1.0), None
+    # two unrelated samples with different evidence, genotyped in one run: every sample's calls must equal those of
+    # the run restricted to that sample (nothing of one sample's result may reach the other)
+    for nopriors in (True, False):
+        for depth_a, depth_b in ((1, 4), (4, 1), (2, 2)):
+            k = 2
+            vs = [{"pos": 60 + 40 * i, "kind": "SNV", "len": 1} for i in range(k)]
+            chroms = [{"name": "chrA", "length": 60 + 40 * k + 60, "variants": vs}]
+            world = {"seed": seed, "chroms": chroms, "samples": ["A", "B"], "haps": {"A": {"chrA": [[0, 1], [0, 1]]}, "B": {"chrA": [[1, 1], [0, 1]]}}, "reads": [], "errors": 0, "per_sample": True}
+            for s_, dp in (("A", depth_a), ("B", depth_b)):
+                for h in (0, 1):
+                    world["reads"].append({"sample": s_, "chrom": "chrA", "hap": h, "segs": [[0, 1, 5, 5]], "n": dp})
+            yield world, dict(gt_qual_threshold=0, nopriors=nopriors), None
     # trio
     for hp_f, hp_m in [((0, 0), (0, 1)), ((0, 1), (0, 0))]:
         for thr in (0, 10):
@@ -312,6 +324,19 @@ def run_vcf(inst):
         except Exception as e:  # noqa
             return Result(violations=[_vw("error", f"whatshap genotype failed: {type(e).__name__}: {e}", inst)])
         parsed = synth.parse_vcf(out)
+        if world.get("per_sample"):
+            for si, sname in enumerate(parsed["samples"]):
+                solo = os.path.join(d, f"gt_{sname}.vcf")
+                kw2 = {k_: v_ for k_, v_ in kw.items() if k_ != "prioroutput"}
+                with open(solo, "w") as f:
+                    run_genotype([paths["bam"]], paths["vcf"], reference=paths["fasta"], output=f, write_command_line_header=False, samples=[sname], **kw2)
+                ps = synth.parse_vcf(solo)
+                for r_joint, r_solo in zip(parsed["records"], ps["records"]):
+                    cj, cs = r_joint["calls"][si], r_solo["calls"][ps["samples"].index(sname)]
+                    gj = [float(x) for x in cj.get("GL", "0,0,0").split(",")]
+                    gs = [float(x) for x in cs.get("GL", "0,0,0").split(",")]
+                    if cj.get("GT") != cs.get("GT") or any(abs(10**a - 10**b) > 1e-4 for a, b in zip(gj, gs)):
+                        viols.append(_vw("joint-vs-single-sample", f"{r_joint['pos']} sample {sname}: {cj} in the joint run, {cs} when genotyped alone", inst))
         all_records = [("", r) for r in parsed["records"]]
         if not kw.get("nopriors") and os.path.exists(prior_out):
             all_records += [("[prior VCF] ", r) for r in synth.parse_vcf(prior_out)["records"]]
